@@ -24,6 +24,7 @@ import (
 
 	"github.com/iotaledger/hive.go/ierrors"
 	"github.com/iotaledger/hive.go/kvstore"
+	"github.com/iotaledger/hive.go/kvstore/debug"
 	"github.com/iotaledger/hive.go/kvstore/flushkv"
 	"github.com/iotaledger/hive.go/kvstore/mapdb"
 )
@@ -209,7 +210,7 @@ type world struct {
 	parent  kvstore.KVStore // a non-root view of it; the sequence lives in a sub-view, siblings are opened next to it
 	view    kvstore.KVStore // the handle the Sequence uses (under the crash wrapper)
 	cs      *crashStore
-	backend string // view (default) | root | flush
+	backend string // view (default) | root | flush | debug
 	dsk     *disk
 	faultBy string // how fnext/frelease make a store call fail: "" = injected error on top of the wrappers, "close" = the database below them is closed
 	*lane           // the lane the current request works on
@@ -457,6 +458,10 @@ func (w *world) setBackend(b string) {
 	case "flush":
 		w.dsk = &disk{KVStore: w.view}
 		w.cs.KVStore = flushkv.New(w.dsk)
+	case "debug":
+		// the access-callback wrapper, over the flushing wrapper
+		w.dsk = &disk{KVStore: w.view}
+		w.cs.KVStore = debug.New(flushkv.New(w.dsk), func(debug.Command, ...[]byte) {})
 	default:
 		b = "view"
 		w.dsk = &disk{KVStore: w.view}
@@ -1061,7 +1066,7 @@ func genCfg(rng *hx.Rng) []string {
 		ops = append(ops, "cfg wrapnf")
 	}
 	if rng.Chance(1, 3) {
-		ops = append(ops, "cfg backend "+hx.Pick(rng, []string{"root", "flush"}))
+		ops = append(ops, "cfg backend "+hx.Pick(rng, []string{"root", "flush", "flush", "debug"}))
 	}
 	if rng.Chance(1, 2) {
 		// store errors are not injected on top of the wrappers: the database below them is shut down at that point of the
